@@ -60,5 +60,5 @@ CONF = dict(
  'event with the extracted model, evaluating the property oracle on what the implementation did'),
     timeout_quick=600,
     timeout_thorough=3000,
-    min_cases={'sync.drift': 1800, 'sync.extreme': 1, 'sync.run': 2412},
+    min_cases={'sync.drift': 1800, 'sync.extreme': 30, 'sync.run': 2600, 'sync.config': 90, 'sync.clocks': 45, 'sync.wiring': 3, 'sync.sleep': 6, 'sync.build': 1},
 )
